@@ -198,10 +198,41 @@ class Interp:
             raise _Continue()
         elif k == "null":
             pass
-        elif k in ("switch", "case", "default", "goto", "label"):
+        elif k == "switch":
+            self._switch(f, s, env, depth)
+        elif k in ("case", "default"):
+            self.stmt(f, s.get("body"), env, depth)
+        elif k in ("goto", "label"):
             raise Unsupported(k)
         else:
             self.expr(f, s, env, depth)
+
+    def _switch(self, f, s, env, depth):
+        """switch over a flat compound body (case labels directly inside it), with fall-through"""
+        v = self.expr(f, s["c"], env, depth)
+        if not isinstance(v, int):
+            raise Unsupported("switch on a non-integer value")
+        body = s["body"]
+        items = body["body"] if body is not None and body["k"] == "block" else [body]
+        start = None
+        default = None
+        for i, it in enumerate(items):
+            cur = it
+            while cur is not None and cur["k"] in ("case", "default"):
+                if cur["k"] == "case" and cval(cur["v"]) == v and start is None:
+                    start = i
+                if cur["k"] == "default" and default is None:
+                    default = i
+                cur = cur.get("body")
+        if start is None:
+            start = default
+        if start is None:
+            return
+        try:
+            for it in items[start:]:
+                self.stmt(f, it, env, depth)
+        except _Break:
+            pass
 
     def _for(self, f, s, env, depth):
         if s.get("init") is not None:
